@@ -458,6 +458,36 @@ def run(F, rep):
 
     # ------------------------------------------------------------------ R2: self-recursion makes progress (library-wide)
     import recursion as _rec
+    rep.rule('C01.A1', 'the analyser and the generator take MathML apart assuming the operands are there; that assumption is discharged by the validator: every branch of the element dispatch in validateMathMLElementsChildrenAndSiblings '
+                       'checks the number of children or siblings of its elements (a has...MathmlChild(ren)/Sibling(s) helper) or their content; an operator branch (isFirstMathmlSibling) guarantees at least one operand, '
+                       'and the operators the generator emits as two-argument functions (min, max, rem, divide, power) at least two')
+    vd = F.fn1('Validator::ValidatorImpl::validateMathMLElementsChildrenAndSiblings')
+    tops = [n for n in vd.walk() if n.get('k') == 'If' and not any(a.get('k') == 'If' for a in vd.ancestors(n))]
+    if not tops:
+        raise AnalysisBroken('validateMathMLElementsChildrenAndSiblings: element dispatch vanished')
+    n_ = tops[0]
+    n_a = 0
+    seen_els = set()
+    while n_ is not None and n_.get('k') == 'If':
+        els = re.findall(r'isMathmlElement\("(\w+)"\)', render(role(n_, 'cond')))
+        th = role(n_, 'then')
+        calls = {c.get('fn') for c in walk(th) if c.get('k') == 'Call' and c.get('fn')}
+        counts = {c for c in calls if re.match(r'^has(One|Two|AtLeastOne|AtLeastTwo|OneOrTwo)Mathml(Sibling|Siblings|Child|Children)$', c)}
+        n_ = role(n_, 'else')
+        if not els:
+            continue
+        n_a += 1
+        seen_els |= set(els)
+        key = '|'.join(els[:3]) + ('..' if len(els) > 3 else '')
+        if els == ['piecewise']:
+            rep.check('validateMathMLElementsChildrenAndSiblings' in calls, 'C01.A1', key + '|children validated', vd.where(th), 'the children of piecewise are not validated', 'pieces validated (the missing "at least one child" check is a known finding of C01.N1)')
+            continue
+        rep.check(bool(counts) or 'addMathmlIssue' in calls, 'C01.A1', key + '|arity checked', vd.where(th), 'the branch for %s checks neither the number of children/siblings nor the content of the element: an application with missing operands passes validation and is dereferenced by the analyser/generator' % els,
+                  'checked by %s' % sorted(counts or {'addMathmlIssue'}))
+        if set(els) & {'min', 'max', 'rem', 'divide', 'power'}:
+            rep.check(bool(counts & {'hasTwoMathmlSiblings', 'hasAtLeastTwoMathmlSiblings'}), 'C01.A1', key + '|two operands', vd.where(th), '%s is emitted as a two-argument function/operator but the validator guarantees only %s' % (els, sorted(counts)), 'at least two operands')
+    if n_a < 20 or not {'min', 'max', 'rem', 'plus', 'piece', 'bvar'} <= seen_els:
+        raise AnalysisBroken('C01.A1: only %d element branches found (25 confirmed)' % n_a)
     _rec.rule_progress(F, rep, 'C01.R2', lambda g: '/src/' in g.file, 100, 'the library')
     _rec.rule_stack_discipline(F, rep, 'C01.S1', lambda g: '/src/' in g.file, 15, 'the library')
 
